@@ -52,9 +52,11 @@ def run(rep, tier):
                                       "(result = interpreter(args[0], ...) returns literal leaves and context values themselves)" % ex.aug) if ex.aug else
                               "no augmented assignment / in-place method call in the body"))
     except Outside as o:
-        obs.append(Obligation(f"{fq}::subset", fq, "subset", "pyvc", "unknown", detail=str(o)))
+        obs = [Obligation(f"{fq}::subset", fq, "subset", "pyvc", "unknown", detail=str(o))]
+    subset_only = len(obs) == 1 and obs[0].kind == "subset"
     for o in obs:
-        rep.add_ob(o)
+        if not subset_only:
+            rep.add_ob(o)
     rep.obligation_samples.append({"function": fq, "obligations": [o.oid.split("::")[-1] for o in obs][:12]})
     kernels.run_scope(rep, [PATH])
     # ---- bounded CPython cross-check / small-scope search (turns a failed obligation into a replayed input)
@@ -75,6 +77,8 @@ def run(rep, tier):
                           replay={"kind": "obligation", "path": PATH, "function": "interpreter", "failed_obligations": [o.oid for o in refuted],
                                   "solver_output": [{"id": o.oid, "status": o.status, "model": o.model, "detail": o.detail} for o in refuted]},
                           no_input=True)
+        elif subset_only:
+            rep.not_covered(fq, src, f"VC generation: {obs[0].detail[:160]} - the bounded CPython cross-check against the documented algebra found no disagreement")
         else:
             rep.undecided.append(f"{fq}: " + "; ".join(f"{o.oid.split('::')[-1]}={o.status} {o.detail[:80]}" for o in bad)[:500])
     rep.assume("jnp.add / subtract / kron, *, @, /, expm are the mathematical operations (uninterpreted in the proof; JAX trusted)",
@@ -96,7 +100,12 @@ def cross_check(rep, depth=2):
     Cm = rng.normal(size=(2, 2))
     store = {"A": A.copy(), "B": Bm.copy()}
     ctx = {"c": lambda dims: store["A"], "d": lambda dims: jnp.array(Bm) * dims[0]}
-    leaves = [A, jnp.array(Bm), Cm.copy(), 2.5, 1j, "c", "d"]
+    # structured matrices: the natural triggers of "fast paths" (strictly lower / upper triangular, diagonal, Hermitian, zero, identity)
+    Lo = np.array([[0.3, 0.0], [0.7 - 0.2j, -0.4]])
+    Up = np.array([[0.0, 1.1 + 0.5j], [0.0, 0.0]])
+    Dg = np.diag([0.4, -1.3j])
+    He = np.array([[0.2, 0.5 - 0.1j], [0.5 + 0.1j, -0.7]])
+    leaves = [A, jnp.array(Bm), Cm.copy(), 2.5, 1j, "c", "d", Lo, jnp.array(Up), Dg, He, np.zeros((2, 2)), np.eye(2)]
     dims = [3, 2]
     cmds = [("add", 3), ("add", 1), ("sub", 2), ("s_mult", 3), ("m_mult", 3), ("kron", 3), ("kron", 2), ("expm", 1), ("div", 2)]
 
@@ -105,7 +114,7 @@ def cross_check(rep, depth=2):
             yield from leaves
             return
         yield from leaves
-        subs = list(itertools.islice(trees(d - 1), 0, 14 if d > 1 else None))
+        subs = list(itertools.islice(trees(d - 1), 0, 20 if d > 1 else None))
         for c, n in cmds:
             for combo in itertools.islice(itertools.product(subs, repeat=n), 0, 60 if d > 1 else 400):
                 yield (c,) + tuple(combo)
@@ -118,6 +127,8 @@ def cross_check(rep, depth=2):
             want = spec_eval(t, ctx, dims)
         except Exception:
             continue     # ill-typed tree (shape mismatch); both sides may raise
+        if not np.all(np.isfinite(np.array(want))):
+            continue     # division by a matrix with zero entries etc.: no defined value to compare
         try:
             got = interpreter(t, ctx, dims)
         except Exception as ex:
@@ -145,3 +156,31 @@ def _show(t):
     if hasattr(t, "shape"):
         return f"<{type(t).__module__.split('.')[0]} array {t.shape}>"
     return repr(t)
+
+
+def frame_only(rep, prop_note="C15"):
+    """the part of the interpreter's contract that C15 relies on (`applying an operation never modifies arrays supplied by the user`): no
+    augmented assignment / in-place update in the body (an accumulator may alias a caller-owned NumPy leaf or a context result), plus
+    the bounded CPython cross-check restricted to the frame clause."""
+    import ast as _ast
+    fq = f"{PATH}::interpreter"
+    try:
+        fn, src, tree = engine.load_function(PATH, "interpreter")
+    except Exception as ex:
+        rep.undecided.append(f"cannot load interpreter: {ex}")
+        return
+    rep.add_function(fq, PATH, src, "P (frame obligation: dataflow)")
+    aug = sorted({nd.lineno for nd in _ast.walk(fn) if isinstance(nd, _ast.AugAssign)}
+                 | {nd.lineno for nd in _ast.walk(fn) if isinstance(nd, _ast.Call) and isinstance(nd.func, _ast.Attribute)
+                    and nd.func.attr in ("fill", "sort", "put", "itemset", "resize", "setfield") })
+    oid = f"{fq}::frame:no-in-place-update-of-possibly-caller-owned-values"
+    rep.add_ob(Obligation(oid, fq, "frame", "dataflow", "failed" if aug else "discharged",
+                          detail=(f"in-place update at line(s) {aug}: the accumulator may alias a caller-owned NumPy leaf or a context result" if aug
+                                  else "no augmented assignment / in-place method call in the body")))
+    failing = cross_check(rep, depth=1)
+    if failing and failing["kind"] == "frame":
+        rep.violation(f"interpreter modifies an array supplied by the user on {failing['expr']}", key=f"P:{fq}:frame",
+                      replay={"kind": "interpreter", "expr": failing["expr"], "why": failing["why"], "failed_obligations": [oid] if aug else []})
+    elif aug:
+        rep.violation(f"{fq}: in-place update at line(s) {aug} may write into a user-supplied array", key=f"P:{oid}",
+                      replay={"kind": "obligation", "path": PATH, "function": "interpreter", "failed_obligations": [oid], "solver_output": [f"lines {aug}"]}, no_input=True)
